@@ -381,7 +381,12 @@ class Universe:
         if tag == 'NT':
             return NT_CLASSES[int(s[1])](*[self.obj(x) for x in s[2:]])
         if tag == 'SS':
-            return SS_CLASSES[int(s[1])](tuple([self.obj(x) for x in s[2:]]))
+            cls = SS_CLASSES[int(s[1])]
+            vis = [self.obj(x) for x in s[2:]]
+            # fill the invisible (named-only) fields with values of their own, as os.stat() does
+            extra = [float(1000 + i) + 0.25 for i in range(cls.n_fields - cls.n_sequence_fields)] \
+                if cls is os.stat_result else []
+            return cls(tuple(vis + extra))
         if tag == 'U':
             return USER_CLASSES[int(s[1])](self.optkey(s[2]), [self.obj(x) for x in s[4:]], str(s[3]))
         raise ValueError(f'bad tree {s!r}')
